@@ -1,11 +1,6 @@
 package main
 
 import (
-	"fmt"
-	"go/token"
-	"go/types"
-	"strings"
-
 	"golang.org/x/tools/go/ssa"
 )
 
@@ -13,137 +8,6 @@ func init() {
 	register("P-COMMENT", "comment.render: text starting with // or /* passes through raw; otherwise line style (\"// \") only for text without a newline and block style (\"/*\\n\" … \"\\n\" \"*/\") exactly for text with one; nothing else is written", 8, rulePXComment)
 	register("P-TAG", "tag.render: each pair is written as key:\"quoted value\" (value through %q / strconv.Quote, key verbatim) for the value looked up under that key, pairs joined by one space; the whole is back-quoted only under strconv.CanBackquote and otherwise quoted by strconv.Quote", 6, rulePXTag)
 	register("P-DICT", "Dict: a pair is collected iff key and value are non-nil and non-null, with its own key and value; the emission loop writes key, \":\", value of the same pair, and \",\\n\" / a leading \"\\n\" exactly when there are several pairs; Dict.isNull is true iff no pair has both sides non-null", 7, rulePXDict)
-}
-
-func hasAtom(w Facts, pol bool, pred func(string) bool) bool {
-	for atom, p := range w {
-		if p == pol && pred(atom) {
-			return true
-		}
-	}
-	return false
-}
-
-func ruleComment(c *Ctx) []Obligation {
-	o := c.newObs("P-COMMENT")
-	var f *ssa.Function
-	for _, g := range c.codeImpls(c.renderName()) {
-		if g.Synthetic == "" && g.Signature.Recv() != nil && types.TypeString(g.Signature.Recv().Type(), shortQual) == "jen.comment" {
-			f = g
-		}
-	}
-	if f == nil {
-		o.undecided("(jen.comment).render", "anchor", token.NoPos, "anchor lost")
-		return o.list
-	}
-	a := c.FA(f)
-	fn := fname(f)
-	w := c.writerParam(f)
-	// the text field
-	text := "recv.comment"
-	pfx := func(p string) string { return "strings.HasPrefix(" + text + ", " + p + ")" }
-	rawLine, rawBlock := pfx(`"//"`), pfx(`"/*"`)
-	hasNL := "strings.Contains(" + text + `, "\n")`
-	endsNL := "strings.HasSuffix(" + text + `, "\n")`
-	isRaw := func(w Facts) bool { return w.Has(rawLine, true) || w.Has(rawBlock, true) }
-	notRaw := func(w Facts) bool { return w.Has(rawLine, false) && w.Has(rawBlock, false) }
-	var rawSink, content, lineOpen, blockOpen, nl, blockClose *Sink
-	for _, s := range a.Sinks() {
-		if stripConv(s.Writer) != ssa.Value(w) {
-			o.add(Violated, fn, "write to something other than the writer parameter", s.Call.Pos(), true, "")
-			continue
-		}
-		d := a.DataDesc(s)
-		ws := a.WaysTo(s.Call.Block())
-		set := func(dst **Sink, name string) {
-			if *dst != nil {
-				o.add(Violated, fn, "more than one write of "+name, s.Call.Pos(), true, "")
-			}
-			*dst = s
-		}
-		switch d {
-		case text:
-			if ok, _ := allWays(ws, isRaw); ok {
-				set(&rawSink, "the raw text")
-			} else if ok, _ := allWays(ws, notRaw); ok {
-				set(&content, "the comment text")
-			} else {
-				o.add(Violated, fn, "write of the text neither on the raw nor on the formatted path", s.Call.Pos(), true, "")
-			}
-		case `"// "`:
-			set(&lineOpen, `"// "`)
-		case `"/*\n"`:
-			set(&blockOpen, `"/*\n"`)
-		case `"\n"`:
-			set(&nl, `"\n"`)
-		case `"*/"`:
-			set(&blockClose, `"*/"`)
-		default:
-			o.add(Violated, fn, "unexpected write "+d, s.Call.Pos(), true, "a comment writes its marker(s) and its text, nothing else")
-		}
-	}
-	if content == nil || lineOpen == nil || blockOpen == nil || blockClose == nil {
-		o.add(Violated, fn, "line and block comment forms are both present", f.Pos(), true, "text write: %v, \"// \": %v, \"/*\\n\": %v, \"*/\": %v", content != nil, lineOpen != nil, blockOpen != nil, blockClose != nil)
-		return o.list
-	}
-	chk := func(s *Sink, name string, pred func(Facts) bool) {
-		ok, bad := allWays(a.WaysTo(s.Call.Block()), pred)
-		o.req(ok, fn, name, s.Call.Pos(), "way %s", bad)
-	}
-	if rawSink != nil {
-		o.req(len(reachableSinks(a, rawSink)) == 0, fn, "raw text is written alone", rawSink.Call.Pos(), "other writes follow the raw pass-through")
-	}
-	chk(lineOpen, "line style only for text without a newline (and not raw)", func(w Facts) bool { return notRaw(w) && w.Has(hasNL, false) })
-	chk(blockOpen, "block style only for text with a newline (and not raw)", func(w Facts) bool { return notRaw(w) && w.Has(hasNL, true) })
-	chk(blockClose, "block close only for text with a newline", func(w Facts) bool { return notRaw(w) && w.Has(hasNL, true) })
-	if nl != nil {
-		chk(nl, "newline before the block close only if the text does not end in one", func(w Facts) bool { return w.Has(hasNL, true) && w.Has(endsNL, false) })
-	}
-	// whenever: a marker precedes the text
-	p := a.Cut(f.Blocks[0], content.Call, []ssa.Instruction{lineOpen.Call, blockOpen.Call}, nil)
-	o.req(p == nil, fn, "the text is always preceded by a comment marker", content.Call.Pos(), "path %s writes the text bare: it would become code", pathString(p))
-	// whenever multi-line: closed by */ (on every successful return after the text)
-	cerr, _ := errValue(content.Call)
-	for _, r := range a.returns() {
-		if !reachableFrom(content.Call.Block(), nil)[r.Block()] {
-			continue
-		}
-		succ := false
-		for _, res := range r.Results {
-			if isErrorType(res.Type()) && isNilConst(res) {
-				succ = true
-			}
-		}
-		if !succ {
-			continue
-		}
-		ex := []Lit{{hasNL, false}}
-		if cerr != nil {
-			l := a.nilFact(cerr)
-			l.Pol = false
-			ex = append(ex, l)
-		}
-		p := a.Cut(content.Call.Block(), r, []ssa.Instruction{blockClose.Call}, ex)
-		o.req(p == nil, fn, "a block comment is always closed", r.Pos(), "path %s", pathString(p))
-	}
-	if nl != nil {
-		p := a.Cut(content.Call.Block(), blockClose.Call, []ssa.Instruction{nl.Call}, []Lit{{endsNL, true}})
-		o.req(p == nil, fn, "the block close starts on its own line", blockClose.Call.Pos(), "path %s", pathString(p))
-	}
-	// order: marker, text, (newline), close
-	o.req(reachableFrom(content.Call.Block(), nil)[blockClose.Call.Block()] && !reachableFrom(blockClose.Call.Block(), nil)[content.Call.Block()], fn, "block close follows the text", blockClose.Call.Pos(), "")
-	return o.list
-}
-
-func reachableSinks(a *FnA, s *Sink) []*Sink {
-	var out []*Sink
-	r := reachableFrom(s.Call.Block(), nil)
-	for _, t := range a.Sinks() {
-		if t != s && (r[t.Call.Block()] || (t.Call.Block() == s.Call.Block() && instrIndex(t.Call) > instrIndex(s.Call))) {
-			out = append(out, t)
-		}
-	}
-	return out
 }
 
 // ---------------------------------------------------------------------------------------------
@@ -157,563 +21,4 @@ type tseg struct {
 	bits int // bit size given to a strconv formatter (0 = not applicable)
 }
 
-func (t tseg) String() string {
-	if t.val == nil {
-		return fmt.Sprintf("%q", t.lit)
-	}
-	if t.bits != 0 {
-		return fmt.Sprintf("%%%s/%d(…)", t.verb, t.bits)
-	}
-	return "%" + t.verb + "(…)"
-}
-
-// template normalises a string expression built from concatenation, fmt.Sprintf, strconv.Quote and
-// constants into a sequence of segments, so that equivalent spellings compare equal.
-func (a *FnA) template(v ssa.Value) []tseg {
-	var out []tseg
-	add := func(t tseg) {
-		if t.val == nil && t.lit == "" {
-			return
-		}
-		if t.val == nil && len(out) > 0 && out[len(out)-1].val == nil {
-			out[len(out)-1].lit += t.lit
-			return
-		}
-		out = append(out, t)
-	}
-	var walk func(v ssa.Value)
-	walk = func(v ssa.Value) {
-		v = stripConv(v)
-		if sv, ok := constString(v); ok {
-			add(tseg{lit: sv})
-			return
-		}
-		switch x := v.(type) {
-		case *ssa.BinOp:
-			if x.Op == token.ADD {
-				walk(x.X)
-				walk(x.Y)
-				return
-			}
-		case *ssa.Call:
-			if sc := x.Call.StaticCallee(); sc != nil {
-				switch {
-				case sc.String() == "fmt.Sprintf":
-					if f, ok := constString(x.Call.Args[0]); ok {
-						if va, ok := varargs(x.Call.Args[1]); ok {
-							lits, verbs := parseFormat(f)
-							if len(verbs) == len(va) {
-								for i, vb := range verbs {
-									add(tseg{lit: lits[i]})
-									add(tseg{verb: vb, val: stripConv(va[i])})
-								}
-								add(tseg{lit: lits[len(lits)-1]})
-								return
-							}
-						}
-					}
-				case sc.String() == "fmt.Sprint":
-					if va, ok := varargs(x.Call.Args[0]); ok {
-						allStr := true
-						for _, ar := range va {
-							if b, ok := stripConv(ar).Type().Underlying().(*types.Basic); !ok || b.Info()&types.IsString == 0 {
-								allStr = false
-							}
-						}
-						if allStr { // fmt.Sprint adds no spaces between string operands
-							for _, ar := range va {
-								walk(ar)
-							}
-							return
-						}
-					}
-				case sc.String() == "strconv.Quote":
-					add(tseg{verb: "q", val: stripConv(x.Call.Args[0])})
-					return
-				case sc.String() == "strconv.Itoa" || sc.String() == "strconv.FormatBool":
-					vb := "d"
-					if sc.String() == "strconv.FormatBool" {
-						vb = "t"
-					}
-					add(tseg{verb: vb, val: x.Call.Args[0]})
-					return
-				case sc.String() == "strconv.FormatInt" || sc.String() == "strconv.FormatUint":
-					if base, ok := constInt(x.Call.Args[1]); ok && base == 10 {
-						add(tseg{verb: "d", val: x.Call.Args[0]})
-						return
-					}
-				case sc.String() == "strconv.FormatFloat" || sc.String() == "strconv.FormatComplex":
-					f, ok1 := constInt(x.Call.Args[1])
-					prec, ok2 := constInt(x.Call.Args[2])
-					bits, ok3 := constInt(x.Call.Args[3])
-					if ok1 && ok2 && ok3 && f == 'g' && prec == -1 {
-						add(tseg{verb: "g", val: x.Call.Args[0], bits: int(bits)})
-						return
-					}
-				}
-			}
-		}
-		add(tseg{verb: "s", val: v})
-	}
-	walk(v)
-	return out
-}
-
-// concatParts flattens a string concatenation into its operands.
-func concatParts(v ssa.Value) []ssa.Value {
-	v = stripConv(v)
-	if b, ok := v.(*ssa.BinOp); ok && b.Op == token.ADD {
-		return append(concatParts(b.X), concatParts(b.Y)...)
-	}
-	return []ssa.Value{v}
-}
-
-func ruleTag(c *Ctx) []Obligation {
-	o := c.newObs("P-TAG")
-	var f *ssa.Function
-	for _, g := range c.codeImpls(c.renderName()) {
-		if g.Synthetic == "" && g.Signature.Recv() != nil && types.TypeString(g.Signature.Recv().Type(), shortQual) == "jen.tag" {
-			f = g
-		}
-	}
-	if f == nil {
-		o.undecided("(jen.tag).render", "anchor", token.NoPos, "anchor lost")
-		return o.list
-	}
-	a := c.FA(f)
-	fn := fname(f)
-	w := c.writerParam(f)
-	var sinks []*Sink
-	for _, s := range a.Sinks() {
-		if stripConv(s.Writer) == ssa.Value(w) {
-			sinks = append(sinks, s)
-		}
-	}
-	if len(sinks) != 1 {
-		o.add(Violated, fn, "the tag is written as one string literal", f.Pos(), true, "%d writes", len(sinks))
-		return o.list
-	}
-	S := sinks[0]
-	o.req(!inCycle(S.Call.Block()), fn, "the tag is written once", S.Call.Pos(), "")
-	// the text accumulated per pair: the loop-carried string
-	var accPhi *ssa.Phi
-	for _, b := range f.Blocks {
-		for _, in := range b.Instrs {
-			phi, ok := in.(*ssa.Phi)
-			if !ok {
-				continue
-			}
-			if bt, ok := phi.Type().Underlying().(*types.Basic); !ok || bt.Info()&types.IsString == 0 {
-				continue
-			}
-			if loopHeader(b) == b {
-				accPhi = phi
-			}
-		}
-	}
-	if accPhi == nil {
-		o.undecided(fn, "pair loop", f.Pos(), "no loop-carried string found")
-		return o.list
-	}
-	var next ssa.Value
-	for i, e := range accPhi.Edges {
-		if accPhi.Block().Dominates(accPhi.Block().Preds[i]) {
-			next = e
-		} else if sv, ok := constString(e); !ok || sv != "" {
-			o.add(Violated, fn, "the tag text starts empty", accPhi.Pos(), true, "initial value %s", a.Desc(e))
-		}
-	}
-	if next == nil {
-		o.undecided(fn, "pair loop", accPhi.Pos(), "no back edge value")
-		return o.list
-	}
-	// next = prev [+ " "] + <pair template>
-	segs := a.template(next)
-	// leading part: the previous text, optionally followed by " " under the non-empty guard
-	okSep := false
-	sepDetail := fmt.Sprint(segs)
-	var pairSegs []tseg
-	if len(segs) > 0 && segs[0].val != nil {
-		head := segs[0].val
-		pairSegs = segs[1:]
-		if head == ssa.Value(accPhi) {
-			// unconditional concatenation: a space must follow unless empty … not expressible without a guard
-			if len(pairSegs) > 0 && pairSegs[0].lit == " " {
-				okSep = false
-				sepDetail = "a space is written before the first pair too"
-			}
-		} else if phi, ok := head.(*ssa.Phi); ok && len(phi.Edges) == 2 {
-			var plain, spaced ssa.Value
-			var spacedPred *ssa.BasicBlock
-			for i, e := range phi.Edges {
-				if b, ok := e.(*ssa.BinOp); ok && b.Op == token.ADD {
-					if sv, ok := constString(b.Y); ok && sv == " " {
-						spaced = b.X
-						spacedPred = phi.Block().Preds[i]
-					}
-				} else {
-					plain = e
-				}
-			}
-			if plain == ssa.Value(accPhi) && spaced == plain && spacedPred != nil {
-				emptyAtom := "empty(" + a.Desc(plain) + ")"
-				okSep = a.FactsOnEdge(spacedPred, phi.Block()).Has(emptyAtom, false)
-				for i, e := range phi.Edges {
-					if e == plain && !a.FactsOnEdge(phi.Block().Preds[i], phi.Block()).Has(emptyAtom, true) {
-						okSep = false
-					}
-				}
-			}
-		}
-	}
-	o.req(okSep, fn, "pairs are joined by exactly one space", accPhi.Pos(), "accumulated as %s", sepDetail)
-	// the pair template: <key verbatim> ":" <value Go-quoted>
-	okPair := len(pairSegs) == 3 && pairSegs[0].val != nil && (pairSegs[0].verb == "s" || pairSegs[0].verb == "v") && pairSegs[1].lit == ":" && pairSegs[2].val != nil && pairSegs[2].verb == "q"
-	o.req(okPair, fn, "each pair is key:\"value\" with the value Go-quoted (%q / strconv.Quote)", accPhi.Pos(), "pair text %v — reflect.StructTag needs a Go-quoted value after the colon", pairSegs)
-	if okPair {
-		k := a.Desc(pairSegs[0].val)
-		v := a.Desc(pairSegs[2].val)
-		o.req(v == "recv.items["+k+"]" && !strings.Contains(k, "recv.items"), fn, "the value printed is the one stored under the key printed", accPhi.Pos(), "key %s value %s", k, v)
-		if u, ok := stripConv(pairSegs[0].val).(*ssa.UnOp); ok {
-			if ia, ok := u.X.(*ssa.IndexAddr); ok {
-				sorted := false
-				for _, r := range nonDebugRefs(ia.X) {
-					if ci, ok := r.(ssa.CallInstruction); ok && isSortCall(ci) {
-						sorted = true
-					}
-				}
-				o.req(sorted, fn, "keys are taken from the sorted key slice", accPhi.Pos(), "")
-			}
-		} else {
-			o.add(Violated, fn, "keys are taken from the sorted key slice", accPhi.Pos(), true, "key %s is not an element of the sorted slice", k)
-		}
-	}
-	// final quoting
-	data := stripConv(S.Data[0])
-	phi, ok := data.(*ssa.Phi)
-	if !ok {
-		parts := concatParts(data)
-		if call, isCall := data.(*ssa.Call); isCall && call.Call.StaticCallee() != nil && strings.HasPrefix(call.Call.StaticCallee().String(), "strconv.Quote") {
-			o.add(Discharged, fn, "the literal is quoted by strconv.Quote", S.Call.Pos(), true, "always an interpreted string literal")
-		} else {
-			o.add(Violated, fn, "back-quoted form only if representable", S.Call.Pos(), true, "the literal %v is not chosen by strconv.CanBackquote", len(parts))
-		}
-		return o.list
-	}
-	for i, e := range phi.Edges {
-		pred := phi.Block().Preds[i]
-		fs := a.FactsOnEdge(pred, phi.Block())
-		parts := concatParts(e)
-		if len(parts) == 3 {
-			l, _ := constString(parts[0])
-			r, _ := constString(parts[2])
-			if l == "`" && r == "`" {
-				o.req(fs.Has("strconv.CanBackquote("+a.Desc(parts[1])+")", true), fn, "back-quoted form only if strconv.CanBackquote holds for the text", phi.Pos(), "facts %s", fs)
-				continue
-			}
-		}
-		if call, isCall := stripConv(e).(*ssa.Call); isCall && call.Call.StaticCallee() != nil && strings.HasPrefix(call.Call.StaticCallee().String(), "strconv.Quote") {
-			o.add(Discharged, fn, "otherwise quoted by strconv.Quote", phi.Pos(), true, "%s", a.Desc(e))
-			continue
-		}
-		o.add(Violated, fn, "tag literal form", phi.Pos(), true, "unrecognised literal construction %s", a.Desc(e))
-	}
-	return o.list
-}
-
 // ---------------------------------------------------------------------------------------------
-
-func ruleDict(c *Ctx) []Obligation {
-	o := c.newObs("P-DICT")
-	var rf, nf *ssa.Function
-	for _, g := range c.codeImpls(c.renderName()) {
-		if g.Synthetic == "" && g.Signature.Recv() != nil && types.TypeString(g.Signature.Recv().Type(), shortQual) == "jen.Dict" {
-			rf = g
-		}
-	}
-	for _, g := range c.codeImpls(c.nullName()) {
-		if g.Synthetic == "" && g.Signature.Recv() != nil && types.TypeString(g.Signature.Recv().Type(), shortQual) == "jen.Dict" {
-			nf = g
-		}
-	}
-	if rf == nil || nf == nil {
-		o.undecided("(jen.Dict)", "anchor", token.NoPos, "anchor lost: Dict.render / Dict.isNull")
-		return o.list
-	}
-	// ---- isNull
-	{
-		a := c.FA(nf)
-		fn := fname(nf)
-		var loop *mapLoop
-		for _, ml := range mapLoops(nf) {
-			if a.Desc(ml.rng.X) == "recv" {
-				loop = ml
-			}
-		}
-		if loop == nil || loop.key == nil || loop.val == nil {
-			o.undecided(fn, "pair loop", nf.Pos(), "no range over the Dict with key and value")
-		} else {
-			excused := c.pairExcuse(a, loop)
-			both := func(w Facts) bool { return pairBothLive(a, loop, w) }
-			for _, r := range a.returns() {
-				bv, isConst := constBool(r.Results[0])
-				if !isConst {
-					o.undecided(fn, "result", r.Pos(), "returns %s", a.Desc(r.Results[0]))
-					continue
-				}
-				ws := a.WaysTo(r.Block())
-				if !bv {
-					ok, bad := allWays(ws, both)
-					o.req(ok, fn, "not null only if some pair has key and value both non-nil and non-null", r.Pos(), "way %s", bad)
-				} else {
-					ok, bad := allWays(ws, func(w Facts) bool {
-						return w.Has("eq(nil,recv)", true) || w.Has("empty(recv)", true) || w.Has(a.Desc(loop.next)+"#0", false)
-					})
-					o.req(ok, fn, "null only if empty or after all pairs were examined", r.Pos(), "way %s", bad)
-				}
-			}
-			for _, p := range loop.header.Preds {
-				if !loop.blocks[p] {
-					continue
-				}
-				ok, bad := allWays(a.WaysOnEdge(p, loop.header), excused)
-				o.req(ok, fn, fmt.Sprintf("the loop moves on only past pairs with a nil / null side (from block %d)", p.Index), loop.rng.Pos(), "way %s", bad)
-			}
-		}
-	}
-	// ---- render
-	a := c.FA(rf)
-	fn := fname(rf)
-	var loop *mapLoop
-	for _, ml := range mapLoops(rf) {
-		if a.Desc(ml.rng.X) == "recv" {
-			loop = ml
-		}
-	}
-	if loop == nil || loop.key == nil || loop.val == nil {
-		o.undecided(fn, "collection loop", rf.Pos(), "no range over the Dict with key and value")
-		return o.list
-	}
-	// construction site of the collected element
-	var elem *ssa.Alloc
-	var elemFields map[string]ssa.Value
-	for b := range loop.blocks {
-		for _, in := range b.Instrs {
-			al, ok := in.(*ssa.Alloc)
-			if !ok {
-				continue
-			}
-			fs, ok := allocFields(al)
-			if !ok {
-				continue
-			}
-			hasK, hasV := false, false
-			for _, v := range fs {
-				if v == loop.key {
-					hasK = true
-				}
-				if v == loop.val {
-					hasV = true
-				}
-			}
-			if hasK || hasV {
-				if elem != nil {
-					o.undecided(fn, "collected element", al.Pos(), "more than one construction site")
-				}
-				elem, elemFields = al, fs
-				o.req(hasK && hasV, fn, "a collected pair holds its own key and its own value", al.Pos(), "fields: %d, key present %v, value present %v", len(fs), hasK, hasV)
-			}
-		}
-	}
-	if elem == nil {
-		o.add(Violated, fn, "pairs are collected as (key, value) elements", loop.rng.Pos(), true, "no element holding the range key and value is built in the collection loop (a container indexed by the rendered key text loses pairs whose keys render alike)")
-		return o.list
-	}
-	_ = elemFields
-	both := func(w Facts) bool { return pairBothLive(a, loop, w) }
-	ok, bad := allWays(a.WaysTo(elem.Block()), both)
-	o.req(ok, fn, "a pair is collected only if key and value are non-nil and non-null", elem.Pos(), "way %s", bad)
-	// the element reaches the container: a store / append in the same block or dominated
-	excused := c.pairExcuse(a, loop)
-	for _, p := range loop.header.Preds {
-		if !loop.blocks[p] {
-			continue
-		}
-		if p == elem.Block() || elem.Block().Dominates(p) {
-			continue
-		}
-		ok, bad := allWays(a.WaysOnEdge(p, loop.header), excused)
-		o.req(ok, fn, fmt.Sprintf("a pair is dropped only if a side is nil / null (from block %d)", p.Index), loop.rng.Pos(), "way %s", bad)
-	}
-	// the key is rendered to a private buffer for sorting only after the null tests
-	for _, ci := range a.invokes(a.c.renderName()) {
-		if !loop.blocks[ci.Block()] {
-			continue
-		}
-		ok, bad := allWays(a.WaysTo(ci.Block()), both)
-		o.req(ok && ci.Common().Value == loop.key, fn, "inside the collection loop only the key of a live pair is rendered (for sorting)", ci.Pos(), "way %s", bad)
-		buf, isLocal := stripConv(ci.Common().Args[1]).(*ssa.Alloc)
-		o.req(isLocal && loop.blocks[buf.Block()], fn, "the sort text is rendered into a buffer private to the iteration", ci.Pos(), "")
-	}
-	// ---- emission loop
-	var kR, vR ssa.CallInstruction
-	for _, ci := range a.invokes(a.c.renderName()) {
-		if loop.blocks[ci.Block()] {
-			continue
-		}
-		d := collectionShape(a, ci.Common().Value)
-		switch {
-		case strings.HasSuffix(d, ".k") || strings.HasSuffix(d, ".key"):
-			kR = ci
-		case strings.HasSuffix(d, ".v") || strings.HasSuffix(d, ".value") || strings.HasSuffix(d, ".val"):
-			vR = ci
-		}
-	}
-	if kR == nil || vR == nil {
-		// fall back: first and second render by dominance
-		var rs []ssa.CallInstruction
-		for _, ci := range a.invokes(a.c.renderName()) {
-			if !loop.blocks[ci.Block()] {
-				rs = append(rs, ci)
-			}
-		}
-		if len(rs) == 2 {
-			if rs[0].Block().Dominates(rs[1].Block()) {
-				kR, vR = rs[0], rs[1]
-			} else if rs[1].Block().Dominates(rs[0].Block()) {
-				kR, vR = rs[1], rs[0]
-			}
-		}
-	}
-	if kR == nil || vR == nil {
-		o.undecided(fn, "emission loop", rf.Pos(), "key / value render calls not found")
-		return o.list
-	}
-	kd, vd := a.Desc(kR.Common().Value), a.Desc(vR.Common().Value)
-	base := func(s string) string {
-		if i := strings.LastIndex(s, "."); i >= 0 {
-			return s[:i]
-		}
-		return s
-	}
-	o.req(base(kd) == base(vd) && kd != vd, fn, "key and value emitted together belong to the same collected pair", kR.Pos(), "key %s value %s", kd, vd)
-	w := c.writerParam(rf)
-	o.req(stripConv(kR.Common().Args[1]) == ssa.Value(w) && stripConv(vR.Common().Args[1]) == ssa.Value(w), fn, "pairs are emitted to the writer", kR.Pos(), "")
-	hdr := loopHeader(kR.Block())
-	if hdr == nil {
-		o.undecided(fn, "emission loop", kR.Pos(), "not a loop")
-		return o.list
-	}
-	var colon, commaNL, leadNL *Sink
-	for _, s := range a.Sinks() {
-		if loop.blocks[s.Call.Block()] || stripConv(s.Writer) != ssa.Value(w) {
-			continue
-		}
-		switch a.DataDesc(s) {
-		case `":"`:
-			colon = s
-		case `",\n"`:
-			commaNL = s
-		case `"\n"`:
-			leadNL = s
-		default:
-			o.add(Violated, fn, "unexpected write in the emission loop: "+a.DataDesc(s), s.Call.Pos(), true, "")
-		}
-	}
-	if colon == nil || commaNL == nil || leadNL == nil {
-		o.add(Violated, fn, "emission writes \":\", \",\\n\" and a leading \"\\n\"", kR.Pos(), true, "colon %v, comma-newline %v, leading newline %v", colon != nil, commaNL != nil, leadNL != nil)
-		return o.list
-	}
-	dom := func(x, y ssa.Instruction) bool {
-		return x.Block() == y.Block() && instrIndex(x) < instrIndex(y) || x.Block() != y.Block() && x.Block().Dominates(y.Block())
-	}
-	o.req(dom(kR, colon.Call) && dom(colon.Call, vR) && dom(vR, commaNL.Call) || (dom(kR, colon.Call) && dom(colon.Call, vR) && reachableFrom(vR.Block(), hdr)[commaNL.Call.Block()]), fn, "order: key, colon, value, then the comma-newline", colon.Call.Pos(), "")
-	// several pairs: the container length test
-	several := func(w Facts) bool {
-		return hasAtom(w, true, func(s string) bool { return strings.HasPrefix(s, "lt(1,builtin.len(") })
-	}
-	ok, bad = allWays(a.WaysTo(commaNL.Call.Block()), several)
-	o.req(ok, fn, "comma-newline only if there are several pairs", commaNL.Call.Pos(), "way %s", bad)
-	ok, bad = allWays(a.WaysTo(leadNL.Call.Block()), several)
-	o.req(ok, fn, "leading newline only if there are several pairs", leadNL.Call.Pos(), "way %s", bad)
-	// whenever several: comma-newline after each value
-	var lenAtom string
-	for atom, pol := range a.FactsAt(commaNL.Call.Block()) {
-		if pol && strings.HasPrefix(atom, "lt(1,builtin.len(") {
-			lenAtom = atom
-		}
-	}
-	if lenAtom != "" {
-		verr, _ := errValue(vR)
-		ex := []Lit{{lenAtom, false}}
-		if verr != nil {
-			l := a.nilFact(verr)
-			l.Pol = false
-			ex = append(ex, l)
-		}
-		for _, p := range hdr.Preds {
-			if !(hdr.Dominates(p)) {
-				continue
-			}
-			path := a.FindPath(vR.Block(), p, map[*ssa.BasicBlock]bool{commaNL.Call.Block(): true}, a.excuseBy(ex))
-			if p == commaNL.Call.Block() {
-				path = nil
-			}
-			if path != nil {
-				last := false
-				for i, s := range p.Succs {
-					if s == hdr && a.excuseBy(ex)(p, i) {
-						last = true
-					}
-				}
-				if last {
-					path = nil
-				}
-			}
-			o.req(path == nil, fn, fmt.Sprintf("with several pairs every value is followed by the comma-newline (back edge from block %d)", p.Index), commaNL.Call.Pos(), "path %s", pathString(path))
-		}
-		// leading newline whenever several, before the first key: excused by first=false
-		var first *ssa.Phi
-		for _, in := range hdr.Instrs {
-			if phi, ok := in.(*ssa.Phi); ok {
-				if b, ok := phi.Type().Underlying().(*types.Basic); ok && b.Kind() == types.Bool {
-					first = phi
-				}
-			}
-		}
-		ex2 := []Lit{{lenAtom, false}}
-		if first != nil {
-			ex2 = append(ex2, Lit{a.Desc(first), false})
-		}
-		path := a.Cut(hdr, kR, []ssa.Instruction{leadNL.Call}, ex2)
-		o.req(path == nil && first != nil, fn, "with several pairs the first key starts on a new line", leadNL.Call.Pos(), "path %s", pathString(path))
-	} else {
-		o.undecided(fn, "several-pairs test", commaNL.Call.Pos(), "no len(container) > 1 fact at the comma-newline")
-	}
-	return o.list
-}
-
-// pairBothLive: on this way both sides of the pair are known non-nil and non-null.
-func pairBothLive(a *FnA, loop *mapLoop, w Facts) bool {
-	k, v := a.Desc(loop.key), a.Desc(loop.val)
-	nullOf := func(x string) bool {
-		return hasAtom(w, false, func(s string) bool { return strings.HasPrefix(s, "invoke.isNull("+x+", ") })
-	}
-	return w.Has("eq("+min2(k, "nil")+","+max2(k, "nil")+")", false) && w.Has("eq("+min2(v, "nil")+","+max2(v, "nil")+")", false) && nullOf(k) && nullOf(v)
-}
-
-// pairExcuse: on this way some side of the pair is known nil or null.
-func (c *Ctx) pairExcuse(a *FnA, loop *mapLoop) func(Facts) bool {
-	k, v := a.Desc(loop.key), a.Desc(loop.val)
-	return func(w Facts) bool {
-		for _, x := range []string{k, v} {
-			if w.Has("eq("+min2(x, "nil")+","+max2(x, "nil")+")", true) {
-				return true
-			}
-			if hasAtom(w, true, func(s string) bool { return strings.HasPrefix(s, "invoke.isNull("+x+", ") }) {
-				return true
-			}
-		}
-		return false
-	}
-}
